@@ -21,14 +21,23 @@ ALPHA = ["a", "C", ":", "/", "\\", "#", ".", "f", "i", "l", "e"]
 NAMECHARS = ["a", "B", "7", " ", "-", "_", ".", "~", "+", "&", ";", "[", "]", "é", "ü"]
 
 
+_used_names = set()
+
+
 def rand_name(rng, ext):
-    n = rng.choice("abXY") + "".join(rng.choice(NAMECHARS) for _ in range(rng.randint(0, 4)))
-    n = n.rstrip(" .") or "x"
-    return n + ext
+    """a fresh name (case-insensitively distinct from every name handed out for the current tree)"""
+    for _ in range(200):
+        n = rng.choice("abXY") + "".join(rng.choice(NAMECHARS) for _ in range(rng.randint(0, 4)))
+        n = (n.rstrip(" .") or "x") + ext
+        if n.lower() not in _used_names:
+            _used_names.add(n.lower())
+            return n
+    raise RuntimeError("name space exhausted")
 
 
 def build_tree(rng, root):
     """returns dict describing a schema chain and a config with includes, with decoys"""
+    _used_names.clear()
     d1 = rand_name(rng, "")
     d2 = rand_name(rng, "")
     lib = os.path.join(root, d1)
@@ -53,7 +62,7 @@ def build_tree(rng, root):
     w(os.path.join(lib, an), "k from-a\n%include " + q(d2 + "/" + bn) + "\n")
     w(os.path.join(root, mainn), "k from-main\n%include " + q(d1 + "/" + an) + "\ninc done\n")
     # references carrying a fragment identifier, at the top of a chain and one level down: all must be rejected
-    fa, fm1, fm2 = rand_name(rng, ".conf"), rand_name(rng, "-f1.conf"), rand_name(rng, "-f2.conf")
+    fa, fm1, fm2 = rand_name(rng, "-fa.conf"), rand_name(rng, "-f1.conf"), rand_name(rng, "-f2.conf")   # distinct from an / bn / mainn
     w(os.path.join(lib, fa), "k from-fa\n%include " + q(d2 + "/" + bn) + "#part-2\n")
     w(os.path.join(root, fm1), "k from-main\n%include " + q(d1 + "/" + an) + "#sec\ninc done\n")
     w(os.path.join(root, fm2), "k from-main\n%include " + q(d1 + "/" + fa) + "\ninc done\n")
